@@ -126,11 +126,14 @@ pub const OP_BULK_PUSH: u32 = 20;
 pub const OP_DROP_NEW: u32 = 21;
 pub const OP_LAZY: u32 = 22;
 pub const OP_VIEWS: u32 = 23;
-pub const OP_COUNT: u32 = 24;
+/// the vector *value* is moved (Rust move = bitwise copy to another address); nothing may change
+pub const OP_MOVE: u32 = 24;
+pub const OP_COUNT: u32 = 25;
 
 pub const OP_NAMES: [&str; OP_COUNT as usize] = [
     "push", "insert", "pop", "remove", "swap_remove", "clear", "get", "iter", "drain", "splice", "clone", "clone_empty_in", "reserve",
     "reserve_exact", "shrink_to_fit", "shrink_to", "raw_parts", "write_spare", "mutate", "swap", "bulk_push", "drop_new", "lazy", "views",
+    "move",
 ];
 
 pub const fn ops(list: &[u32]) -> u64 {
